@@ -18,6 +18,8 @@
 // prefix.go: hand-written serialized deriver keysets over the (entry prefix type × template prefix
 // type × key type) grid (!V accept, behaviour lines !X / !A / !G for the entry's prefix type).
 // history.go: one deriver object, one salt buffer overwritten / re-sliced / restored between calls.
+// limits.go: derived key sizes around the HKDF output limit 255·hashLen (!V hkdfkey), multi-key keysets in which one
+// key fails at derivation time, at every position and in every role (!V derivef).
 package main
 
 import (
@@ -1393,6 +1395,8 @@ func main() {
 		tape.Reset()
 		w.historyCase()
 	}
+	// limits.go: derived key sizes around the HKDF output limit; keysets holding a key that cannot be derived
+	limits(o, seed, tape.Reset)
 }
 
 func dbg(k key.Key) string {
